@@ -9,6 +9,7 @@
 #include "CppUTest/TestHarness.h"
 #include "CppUTest/TestRegistry.h"
 #include "CppUTest/TestFilter.h"
+#include "CppUTest/TestFailure.h"
 #include "CppUTest/TestOutput.h"
 #include "CppUTest/JUnitTestOutput.h"
 #include "CppUTest/TeamCityTestOutput.h"
@@ -20,7 +21,7 @@
 #endif
 
 // ------------------------------------------------------------------ generated run
-struct FailSpec { const char* file; size_t line; const char* text; };
+struct FailSpec { const char* file; size_t line; const char* text; bool located = true; };   // located=false: reported with TestFailure(test, message), i.e. at the test's own location and without leaving the test (as plugins and mocks do)
 struct TestSpec {
     const char* group; const char* name; const char* file; size_t line;
     bool ignored = false;
@@ -68,6 +69,8 @@ static std::string gen_text(vf::Rng& r, int minlen, int maxlen, int pct_special,
 // adversarial fragments: things that look like escapes / entities / message ends
 static const char* const FRAGMENTS[] = { "&amp;", "&lt;", "&#10;", "|n", "|r", "||", "|'", "']", "' x='", "]]>", "<!--", "-->", "<![CDATA[", "&", "'", "\"", "|", "<a b=\"c\">", "\r\n", "\n\n", "%s", "%d%n", "\\n", "&quot;" };
 static std::string gen_hostile(vf::Rng& r, int minlen, int maxlen, int pct_break) {
+    // 6 %: a long value (100..450 characters) with specials at arbitrary offsets, so that escapes straddle any internal chunk boundary
+    if (r.chance(6)) { minlen = 100; maxlen = 450; }
     std::string s = gen_text(r, minlen, maxlen, 30, pct_break);
     int k = r.range(0, 2);
     for (int i = 0; i < k; i++) { size_t pos = r.below(s.size() + 1); s.insert(pos, FRAGMENTS[r.below(sizeof(FRAGMENTS) / sizeof(FRAGMENTS[0]))]); }
@@ -117,6 +120,7 @@ static void generate(vf::Rng& r, RunSpec& run, bool thorough) {
                         else if (where == 1) { fs.file = ts.file; fs.line = (size_t) r.range(1, (int) ts.line - 1); }     // helper above the test
                         else { fs.file = run.keep(gen_hostile(r, 3, 14, 2)); fs.line = (size_t) r.range(1, 9000); }       // another file
                         fs.text = run.keep(gen_hostile(r, 0, 40, 10));
+                        if (r.chance(20)) { fs.located = false; fs.file = ts.file; fs.line = ts.line; }
                         ts.failures.push_back(fs);
                     }
                 }
@@ -147,11 +151,15 @@ public:
         s_->executed++;
         for (int i = 0; i < s_->passing_checks; i++) CHECK(true);
         for (const char* p : s_->prints) sh->print(p, s_->file, s_->line);
-        if (!s_->failures.empty()) sh->fail(s_->failures[0].text, s_->failures[0].file, s_->failures[0].line);
+        if (!s_->failures.empty()) raise(sh, s_->failures[0]);
+    }
+    static void raise(UtestShell* sh, const FailSpec& f) {
+        if (f.located) sh->fail(f.text, f.file, f.line);
+        else sh->addFailure(TestFailure(sh, SimpleString(f.text)));
     }
     void teardown() CPPUTEST_OVERRIDE {
         UtestShell* sh = UtestShell::getCurrent();
-        if (s_->failures.size() > 1) sh->fail(s_->failures[1].text, s_->failures[1].file, s_->failures[1].line);
+        if (s_->failures.size() > 1) raise(sh, s_->failures[1]);
     }
 };
 class ScriptShell : public UtestShell {
